@@ -211,15 +211,35 @@ func renderTail(t string) string {
 
 const padding = "GET /pad HTTP/1.1\r\nHost: h\r\n\r\nGET /pad HTTP/1.1\r\nHost: h\r\n\r\n"
 
-func shapeOf(rl string, hs []string) string {
+// shapeOf: canonical signature of the failing message for a Layer-P reason: only the line
+// variants the reason is about (syntax reasons: the offending variants; framing reasons: the
+// Transfer-Encoding / Content-Length variants in order), so that known findings can be matched.
+func shapeOf(rl string, hs []string, why string) string {
 	var parts []string
 	if rl != "post11" && rl != "get11" {
 		parts = append(parts, rl)
 	}
+	seen := map[string]bool{}
 	for _, h := range hs {
-		if h != "F" {
-			parts = append(parts, h)
+		switch why {
+		case "ws-before-colon":
+			if (h == "WSC" || h == "WSCL" || h == "WSTE") && !seen[h] {
+				parts = append(parts, h)
+			}
+		case "bad-name":
+			if h == "BADN" && !seen[h] {
+				parts = append(parts, h)
+			}
+		case "request-line", "obs-fold", "lenient-line":
+			if h != "F" {
+				parts = append(parts, h)
+			}
+		default:
+			if strings.HasPrefix(h, "TE") || strings.HasPrefix(h, "CL") {
+				parts = append(parts, h)
+			}
 		}
+		seen[h] = true
 	}
 	if len(parts) == 0 {
 		return "plain"
@@ -392,7 +412,7 @@ func parseMain() {
 				}
 			})
 			nevals++
-			shape1, shape2 := shapeOf(c.RL, c.HS), shapeOf(c.RL2, c.HS2)
+			shape1, shape2 := shapeOf(c.RL, c.HS, c.P.Why), shapeOf(c.RL2, c.HS2, c.P2.Why)
 			if p != "" {
 				fail(1, "panic", c.P.Why, shape1, p)
 				continue
@@ -405,6 +425,13 @@ func parseMain() {
 				fail(1, kind, c.P.Why, shape1, det)
 			} else if rep == 0 && (o1.Accepted != (c.M.V == "accept") ||
 				(o1.Accepted && o1.BodyErr == "" && !c.O.Berr && c.P.Class != "gray" && mKind(o1) != c.M.Kind)) {
+				identity := false
+				for _, h := range c.HS {
+					identity = identity || h == "TEi" || h == "TEci" || h == "TEic"
+				}
+				if identity { // open finding F-C24-4: Layer M models the intended behaviour
+					continue
+				}
 				ndrift++
 				if ndrift <= 5 {
 					vh.Emit(parseFail{ID: c.ID, OK: true, Drift: fmt.Sprintf("%s %v: mechanism model %v, code accepted=%v %s err=%q", c.RL, c.HS, c.M, o1.Accepted, mKind(o1), o1.Err)})
